@@ -356,4 +356,12 @@ def createFeatureMap (t : Tens) (s e : S4) (op : S4) (offs : List Nat) (mult : O
           .ok ⟨st.sH, st.sW, st.sC, { tb with a0 := tb.a0 + o0, a1 := tb.a1 + o1, a2 := tb.a2 + o2, a3 := tb.a3 + o3 }⟩
         | _ => .error .rank
 
+/-- `Tensor.get_full_shape()`: rank 1 and 3 are padded with leading 1s (`full_shape(4, shape, 1)`), rank 2 `[a, b]`
+    becomes `[a, 1, 1, b]`, every other rank (0, 4, more) is returned unchanged -/
+def getFullShape : List Nat → List Nat
+  | [c] => [1, 1, 1, c]
+  | [a, b] => [a, 1, 1, b]
+  | [h, w, c] => [1, h, w, c]
+  | l => l
+
 end VelaVerif.TensorAddr
